@@ -28,19 +28,30 @@ type FlowSpec struct {
 	PK     int    `json:"pk"`               // payload carrier
 	OwnRef bool   `json:"own_ref"`          // the flow holds its own reference object / shares one per (node, receiver)
 	Mode   string `json:"mode,omitempty"`   // vivid: tell | ask | future | systell | sysfuture
+	Lean   bool   `json:"lean,omitempty"`   // prc: tiny contents (0..8 runes) — the long-queue scenarios
 }
 type SenderSpec struct {
 	Node  int   `json:"node"`
 	Flows []int `json:"flows"`
 }
+type BigMsg struct {
+	At    int `json:"at"`    // position inside the burst (0-based)
+	Bytes int `json:"bytes"` // encoded payload size of that message (approximately)
+}
 type Burst struct {
-	Flow int `json:"flow"`
-	N    int `json:"n"`
+	Flow int      `json:"flow"`
+	N    int      `json:"n"`
+	Big  []BigMsg `json:"big,omitempty"` // messages of the burst that carry a LARGE payload (100 KiB .. 3 MiB)
 }
 type Outage struct {
 	Node     int  `json:"node"`     // whose Shared is closed and re-shared
 	Inflight bool `json:"inflight"` // traffic keeps flowing while the link goes down
 	DownMs   int  `json:"down_ms"`
+	// close with a long queue: Queue messages of flow QFlow are handed over in one go (prepared beforehand, so that
+	// the per-peer queue grows to many batches) and Close() follows at once. What the close drops is lost
+	// legitimately; what arrives has to arrive in order, once.
+	Queue int `json:"queue,omitempty"`
+	QFlow int `json:"qflow,omitempty"`
 }
 type Scenario struct {
 	Kind      string       `json:"kind"` // prc | vivid
@@ -89,7 +100,9 @@ type Result struct {
 	Panics      []string       `json:"panics,omitempty"`
 	Strange     []string       `json:"strange,omitempty"`
 	WallMs      int            `json:"wall_ms"`
-	viol        []vh.Violation
+	// close with a long queue: messages handed over but not yet arrived at the moment Close() was called, per round
+	QueuedAtClose []int `json:"queued_at_close,omitempty"`
+	viol          []vh.Violation
 }
 
 func (r *Result) addViol(kind, detail string, sig map[string]string) {
@@ -312,6 +325,205 @@ func genPrc(rng *vh.RNG, seed uint64, budget int) *Scenario {
 	return sc
 }
 
+// ---- family "payload sizes": a few messages in the middle of a burst carry a LARGE payload
+//
+// gRPC's default receive limit is 4 MiB per frame and the stream sender puts up to 1024 queued messages into one
+// frame, whatever their size: what one node sends during one epoch may end up in ONE frame. The scenarios of this
+// family therefore keep the payload bytes of one node and epoch below frameBudget (fitFrame enforces it, for the
+// corpus too) — a single message is always far below the limit, so every message has to arrive.
+const (
+	kib         = 1 << 10
+	mib         = 1 << 20
+	frameBudget = 3*mib + 512*kib
+)
+
+// frameLoad: payload bytes (plus envelope allowance) node `node` sends in epoch e, if sequence numbers count up
+// per flow over the epochs (true for scenarios without outages: no probes).
+func frameLoad(sc *Scenario, e, node int) int {
+	next := make([]int, len(sc.Flows))
+	total := 0
+	for ee := 0; ee <= e; ee++ {
+		for si, sp := range sc.Senders {
+			for _, b := range sc.Epochs[ee][si] {
+				lo := next[b.Flow]
+				next[b.Flow] += b.N
+				if ee != e || sp.Node != node {
+					continue
+				}
+				fs := sc.Flows[b.Flow]
+				big := map[int]int{}
+				for _, g := range b.Big {
+					big[g.At] = g.Bytes
+				}
+				for i := 0; i < b.N; i++ {
+					if by, ok := big[i]; ok {
+						total += by + 160
+					} else {
+						total += encodedLen(fs.PK, len(content(fmt.Sprintf("f%d", b.Flow), lo+i))) + 160
+					}
+				}
+			}
+		}
+	}
+	return total
+}
+
+// fitFrame drops large payloads (the last planned first) until every (epoch, node) fits the frame budget.
+func fitFrame(sc *Scenario) *Scenario {
+	for e := range sc.Epochs {
+		for node := 0; node < 2; node++ {
+			for frameLoad(sc, e, node) > frameBudget {
+				dropped := false
+				for si := len(sc.Senders) - 1; si >= 0 && !dropped; si-- {
+					if sc.Senders[si].Node != node {
+						continue
+					}
+					bs := sc.Epochs[e][si]
+					for bi := len(bs) - 1; bi >= 0 && !dropped; bi-- {
+						if n := len(bs[bi].Big); n > 0 {
+							bs[bi].Big = bs[bi].Big[:n-1]
+							dropped = true
+						}
+					}
+				}
+				if !dropped {
+					break // small payloads only: the ordinary scenarios send as much
+				}
+			}
+		}
+	}
+	return sc
+}
+
+func (sc *Scenario) bigCount() (medium, huge int) {
+	for _, ep := range sc.Epochs {
+		for _, bs := range ep {
+			for _, b := range bs {
+				for _, g := range b.Big {
+					if g.Bytes > mib {
+						huge++
+					} else {
+						medium++
+					}
+				}
+			}
+		}
+	}
+	return
+}
+
+func (sc *Scenario) queueRounds() int {
+	n := 0
+	for _, o := range sc.Outages {
+		if o.Queue > 0 {
+			n++
+		}
+	}
+	return n
+}
+
+func genFlows(rng *vh.RNG, sc *Scenario, nS int) {
+	for s := 0; s < nS; s++ {
+		node := rng.Intn(2)
+		if s < 2 && nS >= 2 {
+			node = s
+		}
+		sp := SenderSpec{Node: node}
+		nf := rng.Range(1, 2)
+		for k := 0; k < nf; k++ {
+			fs := FlowSpec{Src: node, Sender: s, Recv: rng.Intn(sc.NRecv), System: rng.Chance(1, 4), Wrap: rng.Bool(), PK: rng.Intn(2), OwnRef: rng.Chance(2, 3)}
+			if rng.Chance(1, 8) {
+				fs.Sender = -1
+			}
+			if !fs.Wrap && rng.Chance(1, 6) {
+				fs.PK = pkError
+			}
+			dup := false
+			for _, fi := range sp.Flows {
+				o := sc.Flows[fi]
+				if o.Recv == fs.Recv && o.System == fs.System {
+					dup = true
+				}
+			}
+			if dup {
+				continue
+			}
+			sp.Flows = append(sp.Flows, len(sc.Flows))
+			sc.Flows = append(sc.Flows, fs)
+		}
+		sc.Senders = append(sc.Senders, sp)
+	}
+}
+
+func genPrcSizes(rng *vh.RNG, seed uint64) *Scenario {
+	sc := &Scenario{Kind: "prc", Seed: seed, Warm: true, NRecv: rng.Range(1, 2), RecoverMs: 5000}
+	genFlows(rng, sc, rng.Range(1, 3))
+	nE := rng.Range(1, 3)
+	for e := 0; e < nE; e++ {
+		ep := make([][]Burst, len(sc.Senders))
+		left := [2]int{frameBudget - 400*kib, frameBudget - 400*kib}
+		hugeDone := [2]bool{}
+		for si, sp := range sc.Senders {
+			if len(sp.Flows) == 0 {
+				continue
+			}
+			nb := rng.Range(1, 2)
+			for b := 0; b < nb; b++ {
+				bu := Burst{Flow: sp.Flows[rng.Intn(len(sp.Flows))], N: rng.Range(8, 240)}
+				used := map[int]bool{}
+				plan := func(bytes int) {
+					at := bu.N/4 + rng.Intn(bu.N/2+1) // in the middle of the burst
+					if bytes > left[sp.Node] || used[at] {
+						return
+					}
+					used[at] = true
+					left[sp.Node] -= bytes
+					bu.Big = append(bu.Big, BigMsg{At: at, Bytes: bytes})
+				}
+				if !hugeDone[sp.Node] && rng.Chance(3, 4) {
+					hugeDone[sp.Node] = true
+					plan(rng.Range(1200*kib, 2900*kib))
+				}
+				for k := rng.Intn(3); k > 0; k-- {
+					plan(rng.Range(100*kib, 900*kib))
+				}
+				sort.Slice(bu.Big, func(i, j int) bool { return bu.Big[i].At < bu.Big[j].At })
+				ep[si] = append(ep[si], bu)
+			}
+		}
+		sc.Epochs = append(sc.Epochs, ep)
+	}
+	return fitFrame(sc)
+}
+
+// ---- family "close with a long queue": 20 000 .. 60 000 sequence numbers of one flow are handed over in one go
+// and the SENDING node closes its sharing at once, for 1-3 rounds; small verified bursts in between. Mostly lean flows
+// (tiny contents): the stream is then busy with batches rather than bytes.
+func genPrcQueue(rng *vh.RNG, seed uint64) *Scenario {
+	sc := &Scenario{Kind: "prc", Seed: seed, Warm: true, NRecv: rng.Range(1, 2), RecoverMs: 5000}
+	genFlows(rng, sc, rng.Range(1, 2))
+	if rng.Chance(5, 6) {
+		for i := range sc.Flows {
+			sc.Flows[i].Lean = true
+		}
+	}
+	rounds := rng.Range(1, 3)
+	for e := 0; e <= rounds; e++ {
+		ep := make([][]Burst, len(sc.Senders))
+		for si, sp := range sc.Senders {
+			if len(sp.Flows) > 0 {
+				ep[si] = append(ep[si], Burst{Flow: sp.Flows[rng.Intn(len(sp.Flows))], N: rng.Range(1, 40)})
+			}
+		}
+		sc.Epochs = append(sc.Epochs, ep)
+		if e > 0 {
+			qf := rng.Intn(len(sc.Flows))
+			sc.Outages = append(sc.Outages, Outage{Node: sc.Flows[qf].Src, DownMs: rng.Range(0, 20), Queue: rng.Range(20000, 60000), QFlow: qf})
+		}
+	}
+	return sc
+}
+
 // corpus: minimised interesting cases first (known defect witness, boundaries)
 func corpus() []*Scenario {
 	one := func(n int) [][]Burst { return [][]Burst{{{Flow: 0, N: n}}} }
@@ -334,6 +546,28 @@ func corpus() []*Scenario {
 	}
 	out = append(out, &Scenario{Kind: "prc", Warm: true, NRecv: 1, Flows: f2, Senders: s2, Epochs: [][][]Burst{both(1500), both(1500), both(10)},
 		Outages: []Outage{{Node: 0, Inflight: true, DownMs: 5}, {Node: 1, Inflight: true, DownMs: 0}}, RecoverMs: 5000})
+	// payload sizes: one message above 1 MiB in the middle of a burst; several sizes over both directions and carriers
+	big := func(n int, g ...BigMsg) []Burst { return []Burst{{Flow: 0, N: n, Big: g}} }
+	out = append(out, fitFrame(&Scenario{Kind: "prc", Warm: true, NRecv: 1, Flows: f01, Senders: s1,
+		Epochs: [][][]Burst{{big(600, BigMsg{At: 300, Bytes: 1536 * kib})}}}))
+	out = append(out, fitFrame(&Scenario{Kind: "prc", Warm: true, NRecv: 1, Flows: f2, Senders: s2, Epochs: [][][]Burst{
+		{big(400, BigMsg{At: 200, Bytes: 2900 * kib}), {{Flow: 1, N: 300, Big: []BigMsg{{At: 150, Bytes: 1229 * kib}}}}},
+		{big(500, BigMsg{At: 100, Bytes: 300 * kib}, BigMsg{At: 250, Bytes: 900 * kib}, BigMsg{At: 400, Bytes: 1300 * kib}),
+			{{Flow: 1, N: 200, Big: []BigMsg{{At: 100, Bytes: 2200 * kib}}}}},
+		{big(40, BigMsg{At: 20, Bytes: 1100 * kib}), {{Flow: 1, N: 40, Big: []BigMsg{{At: 0, Bytes: 100 * kib}, {At: 39, Bytes: 2048 * kib}}}}}}}))
+	fsys := []FlowSpec{{Src: 1, Sender: -1, Recv: 0, System: true, PK: pkError, OwnRef: false}}
+	out = append(out, fitFrame(&Scenario{Kind: "prc", Warm: true, NRecv: 1, Flows: fsys, Senders: []SenderSpec{{Node: 1, Flows: []int{0}}},
+		Epochs: [][][]Burst{{big(1200, BigMsg{At: 700, Bytes: 2048 * kib})}, {big(3, BigMsg{At: 1, Bytes: 3000 * kib})}}}))
+	// close with a long queue: the sending node closes while tens of batches are still queued, 2-3 rounds each
+	// (lean flows: tiny contents, the stream is busy with batches rather than bytes)
+	l01 := []FlowSpec{{Src: 0, Sender: 0, Recv: 0, PK: pkPid, OwnRef: true, Lean: true}}
+	l2 := []FlowSpec{{Src: 0, Sender: 0, Recv: 0, PK: pkPid, OwnRef: true, Wrap: true, Lean: true}, {Src: 1, Sender: 1, Recv: 0, PK: pkDelivery, OwnRef: true, Lean: true}}
+	out = append(out, &Scenario{Kind: "prc", Warm: true, NRecv: 1, Flows: l01, Senders: s1, Epochs: [][][]Burst{one(5), one(5), one(5), one(5)},
+		Outages: []Outage{{Node: 0, Queue: 20000}, {Node: 0, Queue: 40000, DownMs: 3}, {Node: 0, Queue: 60000}}, RecoverMs: 5000})
+	out = append(out, &Scenario{Kind: "prc", Warm: true, NRecv: 1, Flows: l2, Senders: s2, Epochs: [][][]Burst{both(3), both(3), both(3), both(3)},
+		Outages: []Outage{{Node: 1, Queue: 30000, QFlow: 1}, {Node: 0, Queue: 60000, QFlow: 0, DownMs: 10}, {Node: 1, Queue: 45000, QFlow: 1}}, RecoverMs: 5000})
+	out = append(out, &Scenario{Kind: "prc", Warm: true, NRecv: 1, Flows: f01, Senders: s1, Epochs: [][][]Burst{one(5), one(5), one(5)},
+		Outages: []Outage{{Node: 0, Queue: 60000}, {Node: 0, Queue: 50000, DownMs: 1}}, RecoverMs: 5000})
 	return out
 }
 
@@ -355,8 +589,9 @@ func run(sc *Scenario) *Result {
 }
 
 func nontrivial(r *Result) bool {
-	// §6a: a batch boundary crossed (a full batch of the limit went over the wire) or >= 1 Break
-	return r.Batches["1024(limit)"] > 0 || r.Breaks > 0
+	// §6a: a batch boundary crossed (a full batch of the limit went over the wire), >= 1 Break, or a payload above 1 MiB
+	_, huge := r.Scenario.bigCount()
+	return r.Batches["1024(limit)"] > 0 || r.Breaks > 0 || huge > 0
 }
 
 func main() {
@@ -379,16 +614,22 @@ func main() {
 		"scenarios on two real nodes over loopback gRPC (prc.ResourceController+Shared, and vivid.ActorSystem with sharing): 1-5 concurrent "+
 			"senders in both directions, 1-3 flows each (user/system, wrapped/raw, nil sender, three payload carriers with random UTF-8/binary content), "+
 			"bursts of 1..3000 messages (1023/1024/1025/2047/2048/2049 included), cold or warm link, 0-2 Close()/Share() cycles of either node with or "+
-			"without traffic in flight; vivid: Tell/Ask/FutureAsk from actors and from the system, replies; non-trivial = a full batch of the limit "+
-			"(1024) was observed on the wire or >= 1 outage; distinct by hash of scenario+observations")
+			"without traffic in flight; family 'payload sizes': a few messages in the middle of a burst carry 100-900 KiB or 1.1-3 MiB (all carriers, "+
+			"both directions, at most 3.5 MiB per node and epoch: one frame stays below gRPC's 4 MiB); family 'close with a long queue': 20000-60000 "+
+			"prepared messages of one flow handed over in one go, Close() of the sending node at once, 1-3 rounds, mostly tiny contents (arrivals must stay in order, once); "+
+			"vivid: Tell/Ask/FutureAsk from actors and from the system, replies; non-trivial = a full batch of the limit "+
+			"(1024) was observed on the wire, >= 1 outage, or a payload above 1 MiB; distinct by hash of scenario+observations")
 	out.PerShard = 8
 	rng := vh.NewRNG(f.Seed)
 	nPrc, nViv, budget := 40, 10, 12000
+	nSize, nQueue := 6, 5
 	if f.Tier == "thorough" {
 		nPrc, nViv, budget = 400, 80, 30000
+		nSize, nQueue = 60, 30
 	}
 	if f.N > 0 {
 		nPrc, nViv = f.N, f.N/4
+		nSize, nQueue = f.N/6, f.N/12
 	}
 	var scs []*Scenario
 	scs = append(scs, corpus()...)
@@ -401,8 +642,23 @@ func main() {
 		cr, s := rng.Derive()
 		scs = append(scs, genVivid(cr, s, budget/2))
 	}
+	for i := 0; i < nSize; i++ {
+		cr, s := rng.Derive()
+		scs = append(scs, genPrcSizes(cr, s))
+	}
+	for i := 0; i < nQueue; i++ {
+		cr, s := rng.Derive()
+		scs = append(scs, genPrcQueue(cr, s))
+	}
 	infra := 0
 	for _, sc := range scs {
+		medium, huge := sc.bigCount()
+		if medium+huge > 0 && stuckSeen.Load() >= 2 {
+			// a tree whose stream sender got stuck behind a large message twice is judged; every further scenario of
+			// this family would leave more sender goroutines spinning behind and only slow the remaining ones down
+			out.Count("skipped", "large payloads after two stuck senders")
+			continue
+		}
 		res := run(sc)
 		if res.Infra != "" {
 			infra++
@@ -426,6 +682,23 @@ func main() {
 		}
 		out.Count("directions", fmt.Sprint(len(dirs)))
 		out.Count("messages_per_case", vh.Bucket(total/100)+" x100")
+		fam := "bursts/outages"
+		switch {
+		case medium+huge > 0:
+			fam = "payload sizes"
+		case sc.queueRounds() > 0:
+			fam = "close with a long queue"
+		}
+		out.Count("family", fam)
+		for i := 0; i < medium; i++ {
+			out.Count("large_payloads", "100-900 KiB")
+		}
+		for i := 0; i < huge; i++ {
+			out.Count("large_payloads", "1.1-3 MiB")
+		}
+		for _, q := range res.QueuedAtClose {
+			out.Count("batches_not_yet_arrived_at_close", vh.Bucket(q/1024))
+		}
 		for k, c := range res.Batches {
 			for i := 0; i < c; i++ {
 				out.Count("batch_sizes_on_the_wire", k)
